@@ -781,7 +781,7 @@ class GroupNorm(Module):
     group_shape = x.shape[:-1] + (num_groups, group_size)
 
     if mask is not None:
-      mask = mask.reshape(mask.shape[:-1] + (num_groups, group_size))
+      mask = jnp.broadcast_to(mask, x.shape).reshape(group_shape)
 
     mean, var = _compute_stats(
         x.reshape(group_shape),
